@@ -1143,9 +1143,11 @@ fn tcp_headers() -> Vec<TcpHeader> {
                                     h.urgent_pointer = urg;
                                     h.checksum = garbage[i % 3];
                                     if i % 2 == 1 {
-                                        // every second header gets its options through a history: 40 bytes of 0xff first, then
-                                        // the target (the unused tail of the option buffer must not reach any checksum)
-                                        h.set_options_raw(&[0xff; 40]).unwrap();
+                                        // every second header gets its options through a history: 40 other bytes first, then the
+                                        // target (the unused tail of the option buffer must not reach any checksum). Not 0xff / 0x00:
+                                        // words of 0xffff and 0x0000 are both "zero" for a one's complement sum and would hide it
+                                        let first: Vec<u8> = (0..40u8).map(|k| 0x31u8.wrapping_add(k.wrapping_mul(7))).collect();
+                                        h.set_options_raw(&first).unwrap();
                                     }
                                     h.set_options_raw(&o).unwrap();
                                     v.push(h);
